@@ -146,4 +146,28 @@ example : (backfill exTree.dropCells
       (fun out => out.map (fun r => r.levels.map (fun le => (le.1, le.2.assignment, le.2.direct))))
     = some [[(2, 31, none), (1, 21, some false), (0, 10, some false)]] := by decide
 
+/-- "Every taxonomy the tree validator accepts ... is mapped without error"
+(the part that concerns the level loop and the data flow, for a run without
+`drop_level` / `flatten`): on a well-formed tree, with an oracle returning
+children, the pipeline cannot fail — whatever the depth, single-child chains, a
+single node at the top — and returns, in obs order, each cell's flagged walk.
+(The marker side of the clause is C08's; with `drop_level` / `flatten` the
+success of the backfill is `backfill_path`.) -/
+theorem no_error_plain {κ} (t0 : RawTree) (cfg : Config) (vote : Oracle κ)
+    (ids : List CellId) (cells : List κ) (order : List Nat)
+    (hdrop : cfg.dropLevel = none) (hflat : cfg.flatten = false)
+    (hwf : wfb t0 = true) (hv : VoteOK t0 vote)
+    (hlen : ids.length = cells.length) (hnd : ids.Nodup)
+    (hproc : 1 ≤ cfg.nProc) (hcs : 1 ≤ cfg.chunkSize)
+    (horder : order.Perm (List.range
+      (chunks cells.length (effChunk cells.length cfg.nProc cfg.chunkSize)).length)) :
+    mapPipeline t0 cfg vote ids cells order =
+      .ok ((List.zipWith (mkRecord t0 vote) ids cells).map (markDirect t0.hierarchy)) :=
+  mapPipeline_plain_ok t0 cfg vote ids cells order hdrop hflat hwf hv hlen hnd hproc hcs horder
+
+example : mapPipeline exTree { chunkSize := 2, nProc := 2 } exVote [7, 3, 9] [0, 1, 2] [1, 0] =
+    .ok ((List.zipWith (mkRecord exTree exVote) [7, 3, 9] [0, 1, 2]).map (markDirect exTree.hierarchy)) :=
+  no_error_plain exTree { chunkSize := 2, nProc := 2 } exVote [7, 3, 9] [0, 1, 2] [1, 0] rfl rfl
+    exTree_wf (exVote_ok _) rfl (by decide) (by decide) (by decide) (by decide)
+
 end CTM.C01
